@@ -781,3 +781,39 @@ _c = K("Data.set_window[masks]", "core/data.py", lang="py", func="Data.set_windo
        checks=("shape",))
 _c.region = "body"
 _c.required_asserts = ["time = full_time[time_indices]", "lat_seq = full_lat_seq[space_indices]"]
+
+# C07 THRESH: R[a,b] = 1  <=>  D[a,b] < threshold (strict) and neither state holds a missing value
+_c = K("RecurrencePlot.set_fixed_threshold", "timeseries/recurrence_plot.py", lang="py",
+       func="RecurrencePlot.set_fixed_threshold", props=("C07",), py_mode=True,
+       inputs={"distance": "arr:float64:2", "threshold": "float", "self.missing_values": "bool",
+               "self.missing_value_indices": "arr:bool:1"},
+       requires=[],
+       asserts={"self.R = recurrence": [
+           "shape(distance,1)==shape(distance,0) and shape(self.missing_value_indices,0)==shape(distance,0)"]},
+       ensures=["all(iff(self.R[a,b]==1, distance[a,b]<threshold and not (self.missing_values!=0 and "
+                "(self.missing_value_indices[a]==1 or self.missing_value_indices[b]==1))) and (self.R[a,b]==0 or self.R[a,b]==1) "
+                "for a in range(shape(distance,0)) for b in range(shape(distance,0)))"],
+       checks=("narrow",))
+_c.region = "body"
+_c.asserts = {}
+_c.requires = ["shape(distance,1)==shape(distance,0)", "shape(self.missing_value_indices,0)==shape(distance,0)"]
+
+_c = K("CrossRecurrencePlot.set_fixed_threshold", "timeseries/cross_recurrence_plot.py", lang="py",
+       func="CrossRecurrencePlot.set_fixed_threshold", props=("C07",), py_mode=True,
+       inputs={"distance": "arr:float64:2", "threshold": "float"},
+       ensures=["all(iff(self.CR[a,b]==1, distance[a,b]<threshold) and (self.CR[a,b]==0 or self.CR[a,b]==1) "
+                "for a in range(shape(distance,0)) for b in range(shape(distance,1)))",
+                "self.N==shape(distance,0) and self.M==shape(distance,1)"],
+       checks=("narrow", "shape"))
+_c.region = "body"
+
+# C07 RN: the adjacency handed to Network.__init__ is R with the diagonal cleared (stride N+1 hits exactly the diagonal)
+_c = K("RecurrenceNetwork.set_fixed_threshold", "timeseries/recurrence_network.py", lang="py",
+       func="RecurrenceNetwork.set_fixed_threshold", props=("C07",), py_mode=True,
+       inputs={"self.R": "arr:int8:2", "self.N": "int"},
+       requires=["shape(self.R,0)==self.N and shape(self.R,1)==self.N", "self.N>=0"],
+       asserts={"call:Network.__init__": [
+           "all(arg1[a,b]==ite(a==b, 0, self.R[a,b]) for a in range(self.N) for b in range(self.N))"]},
+       checks=("divzero",))
+_c.region = "body"
+_c.required_asserts = []
